@@ -21,6 +21,7 @@
 #define atoi vc_atoi
 #include "compat/libc/stdlib/atol.c"
 #include "igris/util/printf_impl.c"
+#include "c06_pform.h"
 
 #define CONV_c 'c'
 #define CONV_s 's'
@@ -87,7 +88,7 @@ void harness(void)
     r = call("%p", ptr);
     __CPROVER_assert(g_ev == 1 && g_nlit == 0 && g_e_kind == C06_EV_INT, "%p: exactly one integer conversion, no other output");
     __CPROVER_assert(g_e_u == (ullong)(size_t)ptr && g_e_signed == 0 && g_e_base == 16, "%p: the pointer value, unsigned, base 16");
-    __CPROVER_assert(g_e_prec == (int)(2 * sizeof(void *) + 2) && (g_e_ops & (C06_OPS_SPEC | C06_OPS_ZERO)) == (C06_OPS_SPEC | C06_OPS_ZERO) && !(g_e_ops & C06_OPS_UPPER),
+    __CPROVER_assert(g_e_prec == g_c06_p_minlen && (g_e_ops & (C06_OPS_SPEC | C06_OPS_ZERO)) == (C06_OPS_SPEC | C06_OPS_ZERO) && !(g_e_ops & C06_OPS_UPPER),
                      "%p: the fixed form 0x + 2*sizeof(void*) lower-case digits");
     __CPROVER_assert(g_e_width == 0 && !(g_e_ops & C06_OPS_LEFT), "%p: no width");
     __CPROVER_assert(g_e_h == c06_event_recorder && g_e_d == (void *)&g_cbdata && r == g_sum, "%p: callback passed on, count returned");
@@ -95,7 +96,7 @@ void harness(void)
     r = call("%*p", w, ptr);
     __CPROVER_assert(g_ev == 1 && g_nlit == 0 && g_e_kind == C06_EV_INT && g_e_u == (ullong)(size_t)ptr && g_e_base == 16 && g_e_signed == 0, "%*p: one conversion of the pointer value");
     __CPROVER_assert(STAR_W(w), "%*p: width (negative = - flag and positive width)");
-    __CPROVER_assert(g_e_prec == (int)(2 * sizeof(void *) + 2) && r == g_sum, "%*p: fixed form, count returned");
+    __CPROVER_assert(g_e_prec == g_c06_p_minlen && r == g_sum, "%*p: fixed form, count returned");
 #endif
     CANARY("fetch_csp harness end reachable");
 }
